@@ -11,6 +11,9 @@ model builds the table as a function by recursion over `p.take (m - 1)` with a r
 `tab 256 f` for the model's `f`; symbols are bytes.  For the empty pattern `m - 1` underflows: the translated function
 panics (so does the Rust code with overflow checks; without them the slice `pattern[..usize::MAX]` panics).
 -/
+-- the simp sets name every fact a harmless rewrite of the Rust text may need; on the pinned text some are unused
+set_option linter.unusedSimpArgs false
+
 namespace RbV.Thm.GenSrcHorspoolNew
 open RbV RbV.Rs RbV.Gen.SrcHorspoolNew RbV.Thm.GenSrc
 
